@@ -284,7 +284,9 @@ func c12Gen(rt *rapid.T) c12Case {
 			cl = primitive.ConsistencyLevel(c.Unsupported[rapid.IntRange(0, len(c.Unsupported)-1).Draw(rt, "which")])
 		}
 		q := c12Req{Token: tok, Consistency: int(cl)}
-		selText := rapid.SampledFrom([]string{"SELECT * FROM ks1.t WHERE k = '%s'", "select v from ks1.t where k = '%s' allow filtering", "  \n SeLeCt count(*) FROM \"Ks\".t WHERE k = '%s';", "SELECT FROM WHERE '%s'"}).Draw(rt, "seltext")
+		selText := rapid.SampledFrom([]string{"SELECT * FROM ks1.t WHERE k = '%s'", "select v from ks1.t where k = '%s' allow filtering", "  \n SeLeCt count(*) FROM \"Ks\".t WHERE k = '%s';", "SELECT FROM WHERE '%s'",
+			// comments and a bare CR are white space: the first keyword is still SELECT
+			"SELECT/* c */v FROM ks1.t WHERE k = '%s'", "/* c */select/**/* from ks1.t where k = '%s'", "-- c\rSELECT v FROM ks1.t WHERE k = '%s'", "select\rv from ks1.t where k = '%s'", "// c\n\tSELECT-- c\n* FROM ks1.t WHERE k = '%s'"}).Draw(rt, "seltext")
 		dmlText := rapid.SampledFrom([]string{"INSERT INTO ks1.t (k, v) VALUES ('%s', 1)", "UPDATE ks1.t SET v = 2 WHERE k = '%s'", "DELETE FROM ks1.t WHERE k = '%s'",
 			"BEGIN BATCH INSERT INTO ks1.t (k) VALUES ('%s') APPLY BATCH", "TRUNCATE ks1.t /* %s */", "selectx '%s'", "INSERT INTO ks1.selects (k) VALUES ('%s')"}).Draw(rt, "dmltext")
 		isSel := rapid.Bool().Draw(rt, "isselect")
